@@ -22,7 +22,8 @@ var errConnClosed = errors.New("sim: use of closed connection")
 var errConnRefused = errors.New("sim: connection refused")
 
 type simConn struct {
-	id     int
+	id     int    // creation sequence (diagnostics only; never used for ordering)
+	name   string // stable identity: label + per-label counter
 	sim    *Sim
 	a, b   *connEnd // a = dialer, b = acceptor
 	label  string
@@ -61,7 +62,11 @@ type connEnd struct {
 
 func (s *Sim) newConn(label string, from, to simAddr) *simConn {
 	s.connSeq++
-	c := &simConn{id: s.connSeq, sim: s, label: label}
+	if s.connCount == nil {
+		s.connCount = map[string]int{}
+	}
+	s.connCount[label]++
+	c := &simConn{id: s.connSeq, sim: s, label: label, name: fmt.Sprintf("%s#%d", label, s.connCount[label])}
 	c.a = &connEnd{c: c, side: 'a', local: from, remote: to, cond: sync.NewCond(&s.mu)}
 	c.b = &connEnd{c: c, side: 'b', local: to, remote: from, cond: sync.NewCond(&s.mu)}
 	c.a.peer, c.b.peer = c.b, c.a
@@ -125,7 +130,7 @@ func (e *connEnd) Write(p []byte) (int, error) {
 	pe.inflight = append(pe.inflight, cp)
 	pe.inflightN += len(cp)
 	if pe.inflightN > 256<<20 {
-		s.harnessErr("conn %d: more than 256 MiB in flight", e.c.id)
+		s.harnessErr("conn %s: more than 256 MiB in flight", e.c.name)
 	}
 	return len(p), nil
 }
@@ -188,10 +193,10 @@ func (c *simConn) deliverActions() []action {
 			continue
 		}
 		if e.inflightN > 0 {
-			acts = append(acts, action{kind: akDeliver, key: fmt.Sprintf("c%03d>%c", c.id, e.side),
+			acts = append(acts, action{kind: akDeliver, key: fmt.Sprintf("%s>%c", c.name, e.side),
 				run: func() { e.deliver() }})
 		} else if e.peerClosed && !e.eofDelivered {
-			acts = append(acts, action{kind: akDeliver, key: fmt.Sprintf("c%03d>%c eof", c.id, e.side),
+			acts = append(acts, action{kind: akDeliver, key: fmt.Sprintf("%s>%c eof", c.name, e.side),
 				run: func() { e.deliverEOF() }})
 		}
 	}
@@ -367,7 +372,7 @@ func installNetHooks() {
 			return nil, errConnRefused, true
 		}
 		from := simAddr(fmt.Sprintf("%s:%d", g.inst.node.ip, 40000))
-		e, err := s.dial("repl:"+g.inst.node.name, from, simAddr(address))
+		e, err := s.dial("repl:"+g.inst.node.name+">"+address, from, simAddr(address))
 		if err != nil {
 			return nil, err, true
 		}
@@ -393,7 +398,7 @@ func simHTTPDial(ctx context.Context, network, addr string) (net.Conn, error) {
 		return s.zombieSinkDial(), nil
 	}
 	from := simAddr(fmt.Sprintf("%s:%d", g.inst.node.ip, 40001))
-	e, err := s.dial("http:"+g.inst.node.name, from, simAddr(addr))
+	e, err := s.dial("http:"+g.inst.node.name+">"+addr, from, simAddr(addr))
 	if err != nil {
 		return nil, err
 	}
@@ -408,11 +413,7 @@ func (s *Sim) zombieSinkDial() *connEnd {
 		s.zsink.quiet = true
 	}
 	s.mu.Lock()
-	seq := s.connSeq
 	c := s.newConn("zsink", "zombie:1", "zombie-sink:80")
-	s.connSeq = seq // hidden connections do not consume visible connection ids
-	s.hiddenSeq++
-	c.id = 9000 + s.hiddenSeq
 	c.hidden = true
 	s.mu.Unlock()
 	s.zsink.accept(c.b)
